@@ -4,7 +4,7 @@ from tools import vlib, t3
 from tools.vlib import unhx
 
 MODULE = "PropC08"
-THEOREMS = ["C08_code_conforms", "C08_process_order", "C08_creation_is_arrival_order", "C08_final_order"]
+THEOREMS = ["C08_code_conforms", "C08_process_order", "C08_creation_is_arrival_order", "C08_final_order", "C08_fanin_order"]
 
 
 def build(rng, i):
@@ -62,7 +62,7 @@ def case(args):
                 for port, st, path in t["outs"]:
                     sp.files[path] = "ALREADY-THERE %s\n" % path
     ys = (rng.randint(1, 10**6), 300) if rng.random() < 0.3 else None
-    r = t3.success_case(sp, yield_seed=ys, extra_check=order_check(recs), replays=("net",))
+    r = t3.success_case(sp, yield_seed=ys, extra_check=order_check(recs), replays=("net", "port"))
     # completion order really was different from creation order?
     return r
 
